@@ -38,7 +38,7 @@ func init() {
 		return runFamilies(e, "C07", "source-methods", famMethods, b, per, 8, nil, nil)
 	}
 	campaigns["C11"] = func(e *env) error {
-		e.rep.Rule = "cases = (converter, method, source): (a) methods with `default FUNC` over the four pointer shapes (T->U, *T->*U, T->*U, *T->U) with constructors returning a value or a pointer, with/without source argument and error result, combined with default:update at converter and method level, ignored fields and useZeroValueOnPointerInconsistency; constructors return a recognisable value (numbers 7, strings \"ctor\"); (b) random structural converters with pointer perturbations, and the PINNED pointer matrix: every pair of T, *T, **T on either side x {top level, struct field, slice element, map value} x inner type {int, struct; thorough: also string, slice, map} x flag on/off. Executed on nil and non-nil sources; compared with Gv.Gen + Gv.Eval. non-trivial = every call; distinct = (converter, method, source)"
+		e.rep.Rule = "cases = (converter, method, source): (a) methods with `default FUNC` over the four pointer shapes (T->U, *T->*U, T->*U, *T->U) with constructors returning a value or a pointer, with/without source argument and error result, combined with default:update at converter and method level, ignored fields and useZeroValueOnPointerInconsistency; constructors return a recognisable value (numbers 7, strings \"ctor\"); (b) random structural converters with pointer perturbations, and the PINNED pointer matrix: every pair of T, *T, **T on either side x {top level, struct field, slice element, map value} x inner type {int, struct, slice, map; thorough: also string, slices of pointers, maps of slices} x flag on/off. Executed on nil and non-nil sources; compared with Gv.Gen + Gv.Eval. non-trivial = every call; distinct = (converter, method, source)"
 		b, per := 2, 30
 		if e.thorough {
 			b, per = 10*e.scale, 50
@@ -52,9 +52,9 @@ func init() {
 			n, pb = 6*e.scale, 100
 		}
 		batches := structuralBatchesOpt(e, r, n, pb, []string{"useZeroValueOnPointerInconsistency"}, "pointer-matrix", false)
-		inners := []string{"int", "PmInner"}
+		inners := []string{"int", "PmInner", "[]int", "map[string]int"}
 		if e.thorough {
-			inners = []string{"int", "string", "PmInner", "[]int", "map[string]int"}
+			inners = []string{"int", "string", "PmInner", "[]int", "map[string]int", "[]*PmInner", "map[string][]string"}
 		}
 		batches = append(batches, pointerMatrixBatch(inners))
 		res, err := runK2(e, "c11s", batches)
